@@ -260,19 +260,36 @@ impl Check for C05 {
         // pop (stack depths up to L), the state oracle after every prefix and three probes
         {
             let (w, h) = (6, 5);
-            let deep_len = if q { 6 } else { 8 };
-            let alpha = vec![
-                Op::PushClipRect(1, 0, w, h),
-                Op::PushClipRect(0, 1, w, h),
-                Op::PushClipRect(0, 0, w - 1, h),
-                Op::PushClipRect(-1, -1, w + 1, h - 1),
-                Op::PushClip(PathSpec::poly(&[(0.25, 0.0), (6.0, 0.5), (5.5, 5.0), (0.5, 4.75)])),
-                Op::PopClip,
-            ];
+            let tri = PathSpec::poly(&[(0.25, 0.0), (6.0, 0.5), (5.5, 5.0), (0.5, 4.75)]);
             let all = probes(w, h);
-            let pr = vec![all[1].clone(), all[6].clone(), all[7].clone()];
+            let configs: Vec<(&str, Vec<Op>, usize, Vec<Vec<Op>>)> = vec![
+                (
+                    "deep clip stacks (four rects each cutting one side, one AA path, pop)",
+                    vec![Op::PushClipRect(1, 0, w, h), Op::PushClipRect(0, 1, w, h), Op::PushClipRect(0, 0, w - 1, h), Op::PushClipRect(-1, -1, w + 1, h - 1), Op::PushClip(tri.clone()), Op::PopClip],
+                    if q { 6 } else { 8 },
+                    vec![all[1].clone(), all[6].clone(), all[7].clone()],
+                ),
+                (
+                    // rectangles whose extent does not fit an i32 (the 'no clip' rectangle), inverted
+                    // ones, and ones that are extreme on one axis only
+                    "extreme clip rectangles (i32::MIN..i32::MAX, +-1.5e9, inverted extremes, extreme on one axis, one small rect, one AA path, pop)",
+                    vec![
+                        Op::PushClipRect(i32::MIN, i32::MIN, i32::MAX, i32::MAX),
+                        Op::PushClipRect(-1_500_000_000, -1_500_000_000, 1_500_000_000, 1_500_000_000),
+                        Op::PushClipRect(i32::MAX, i32::MAX, i32::MIN, i32::MIN),
+                        Op::PushClipRect(i32::MIN, 1, i32::MAX, 3),
+                        Op::PushClipRect(2, i32::MIN, 5, i32::MAX),
+                        Op::PushClipRect(1, 1, 4, 4),
+                        Op::PushClip(tri.clone()),
+                        Op::PopClip,
+                    ],
+                    if q { 3 } else { 4 },
+                    all.clone(),
+                ),
+            ];
+            for (name, alpha, deep_len, pr) in configs {
             let na = alpha.len();
-            run.bound("deep clip stacks", format!("all histories of length 0..={} over {} stack ops (four rects each cutting one side, one AA path, pop) x {} probes on {}x{}", deep_len, na, pr.len(), w, h));
+            run.bound(name, format!("all histories of length 0..={} over {} stack ops x {} probes on {}x{}", deep_len, na, pr.len(), w, h));
             run.par(na * na, |s, l| {
                 fn rec(run: &Run, s: usize, l: &mut Local, alpha: &[Op], pr: &[Vec<Op>], hist: &mut Vec<Op>, depth: usize) {
                     l.states += 1;
@@ -317,6 +334,7 @@ impl Check for C05 {
                 let mut hist = vec![alpha[i0].clone(), alpha[i1].clone()];
                 rec(run, s, l, &alpha, &pr, &mut hist, deep_len);
             });
+            }
         }
         // a surface of more than 65536 pixels, and a chain 40 clips deep
         {
